@@ -3,6 +3,7 @@ C04 — the host receiver never hands a frame up twice or out of order, whatever
 Model: BV.Ash.onFrame / runFrames (frame_received and its handlers).
 -/
 import BV.Model.Ash.Receiver
+import BV.Proofs.Src.AshRx
 namespace BV.Props.C04
 open BV.Ash BV.Gen.Ash
 
@@ -171,5 +172,83 @@ theorem c04_rx_is_count_mod_8 (fs : List Frame) (k : Nat) (acc : List (List UInt
 
 example : ups (runFrames {} [.data 0 false 0 [1], .data 0 true 0 [1], .data 2 false 0 [3], .data 1 false 0 [2]]).2
     = [[1], [2]] := by decide +kernel
+
+
+/-! ## the same statements over `frame_received` as generated from the source text (BV/Gen/SrcAsh.lean) -/
+
+section Source
+open BV.Proofs.Src.AshRx BV.Proofs.Src.Ash
+open BV.Py (PyErr)
+
+/-- the source-level `frame_received` run over a sequence of frames (an exception does not stop the sequence: the
+next frame is the next call) -/
+def srcRun (s : S) : List Frame → S
+  | [] => s
+  | f :: fs => srcRun (BV.Src.Ash.AshProtocol.frame_received (ofM f) s).2 fs
+
+/-- environment calls made between two states, read as model events -/
+def srcEvs (s s' : S) : List Ev := (s'.trace.drop s.trace.length).filterMap toMEv
+
+theorem srcEvs_trans (s t u : S) (h1 : s.trace <+: t.trace) (h2 : t.trace <+: u.trace) :
+    srcEvs s u = srcEvs s t ++ srcEvs t u := by
+  obtain ⟨x, hx⟩ := h1
+  obtain ⟨y, hy⟩ := h2
+  simp only [srcEvs, ← hy, ← hx, List.append_assoc, List.drop_left, List.filterMap_append]
+  rw [← List.append_assoc, List.drop_left]
+
+theorem ups_evsOf (s t : S) (r : Except PyErr Unit) : ups (evsOf s t r) = ups (srcEvs s t) := by
+  cases r <;> simp [evsOf, srcEvs, outcome, ups, List.filterMap_append]
+
+/-- **`frame_received` of the source is the model's step** (restated from BV.Proofs.Src.AshRx) -/
+theorem c04_src_frame_received (s : S) (hw : WFs s) (hrx : s.rx_seq < 8) (f : Frame) (flag : Bool) :
+    let res := BV.Src.Ash.AshProtocol.frame_received (ofM f) s
+    let m := onFrame (absS s flag) f
+    absS res.2 m.1.ackTimeoutReset = m.1 ∧ evsOf s res.2 res.1 = m.2 ∧ WFs res.2 ∧ res.2.rx_seq < 8 ∧
+      s.trace <+: res.2.trace := frame_received_eq s hw hrx f flag
+
+/-- source level: a DATA frame's payload is handed up iff its number is the expected one, then exactly once -/
+theorem c04_src_accept_iff (s : S) (hw : WFs s) (hrx : s.rx_seq < 8) (ho : isOpen s = true)
+    (n : Nat) (r : Bool) (a : Nat) (p : List UInt8) :
+    ups (srcEvs s (BV.Src.Ash.AshProtocol.frame_received (ofM (.data n r a p)) s).2) =
+      if n = s.rx_seq then [p] else [] := by
+  obtain ⟨-, h2, -, -, -⟩ := frame_received_eq s hw hrx (.data n r a p) false
+  rw [← ups_evsOf _ _ (BV.Src.Ash.AshProtocol.frame_received (ofM (.data n r a p)) s).1, h2]
+  exact c04_accept_iff (absS s false) ho n r a p
+
+theorem srcRun_spec (s : S) (hw : WFs s) (hrx : s.rx_seq < 8) (ho : isOpen s = true) (fs : List Frame)
+    (acc : List (List UInt8)) :
+    ((srcRun s fs).rx_seq, acc ++ ups (srcEvs s (srcRun s fs))) = fs.foldl specStep (s.rx_seq, acc) ∧
+      s.trace <+: (srcRun s fs).trace := by
+  induction fs generalizing s acc with
+  | nil => simp [srcRun, srcEvs, ups]
+  | cons f fs ih =>
+    obtain ⟨h1, h2, h3, h4, h5⟩ := frame_received_eq s hw hrx f false
+    have hspec := onFrame_spec (absS s false) ho f acc
+    have ho' : isOpen (BV.Src.Ash.AshProtocol.frame_received (ofM f) s).2 = true := by
+      have := congrArg Rx.open_ h1
+      simp only [absS] at this
+      rw [this, onFrame_open]; exact ho
+    obtain ⟨ih1, ih2⟩ := ih _ h3 h4 ho' (acc ++ ups (srcEvs s (BV.Src.Ash.AshProtocol.frame_received (ofM f) s).2))
+    have hrxeq : (BV.Src.Ash.AshProtocol.frame_received (ofM f) s).2.rx_seq = (onFrame (absS s false) f).1.rxSeq := by
+      have := congrArg Rx.rxSeq h1
+      simpa [absS] using this
+    refine ⟨?_, h5.trans ih2⟩
+    simp only [srcRun, List.foldl_cons]
+    rw [srcEvs_trans s _ _ h5 ih2, ups, List.filterMap_append, ← List.append_assoc]
+    have : (s.rx_seq, acc) = ((absS s false).rxSeq, acc) := rfl
+    rw [this, ← hspec, ← h2, ups_evsOf, ← hrxeq]
+    exact ih1
+
+/-- **any frame sequence, source level**: what `frame_received` of the source hands up over a whole sequence of frames is
+exactly the payloads that were in sequence when they arrived, in order, each once; the expected number follows
+the abstract acceptor -/
+theorem c04_src_sequence (s : S) (hw : WFs s) (hrx : s.rx_seq < 8) (ho : isOpen s = true) (fs : List Frame)
+    (acc : List (List UInt8)) :
+    ((srcRun s fs).rx_seq, acc ++ ups (srcEvs s (srcRun s fs))) = fs.foldl specStep (s.rx_seq, acc) :=
+  (srcRun_spec s hw hrx ho fs acc).1
+
+example : WFs {} ∧ ({} : S).rx_seq < 8 ∧ isOpen {} = true := ⟨⟨by simp, by simp, by simp⟩, by decide, by decide⟩
+
+end Source
 
 end BV.Props.C04
